@@ -417,7 +417,8 @@ func (s *scenario) render(tmpl *mining.BlockTemplate, sel []int64, cbv int64, we
 	sel, fees, sigs := s.canonRuns(sel, tmpl.Fees, tmpl.SigOpCosts)
 	return fmt.Sprintf("ok sel=%s fees=%s sig=%s cbv=%d wc=%s w=%d chk=fee:%s,sig:%s,dep:%s,pay:%s,wc:%s,meta:%s,ccb:%s,upd:%s,pb:%s",
 		joinInts(sel), joinInts(fees), joinInts(sigs), cbv, b2s(tmpl.WitnessCommitment != nil), weight,
-		b2s(feeOK), b2s(sigOK), b2s(depOK), b2s(payOK), b2s(wcOK), b2s(addrOK), b2s(ccb), b2s(updOK), pb) + s.diffObs
+		b2s(feeOK), b2s(sigOK), b2s(depOK), b2s(payOK), b2s(wcOK), b2s(addrOK), b2s(ccb), b2s(updOK), pb) +
+		",c01:" + b2s(ccb) + s.diffObs
 }
 
 // realPool admits the pool transactions to a real mempool.TxPool (parents
